@@ -60,16 +60,23 @@ RULES = {
     "h/k": [L("h/k")],
     "f/#n": [L("f/"), W("n", "int")],      # a filtered rule: its filter object is looked up again by every later edit of it
 }
+BFS_RULES = list(RULES)                   # the rules the enumerated edits draw from
+# rules used by the hand-written fault/ histories only (since seed C11-k): an int-filtered rule behind a literal that has a
+# wildcard sibling, so that a lookup whose conversion raises dies with a backtracking point pending
+RULES["g/n/#n"] = [L("g/n/"), W("n", "int")]
+RULES["g/:s/:n"] = [L("g/"), W("s"), L("/"), W("n")]
 CLASH = [L("a/"), W("x", "int")]          # same pattern as a/:x, other filter -> rejected when a/:x is in the tree
 SYNTAX_ERR = "/a/<x"
 CHURN = 300                                # distinct filter specs created by one `churn` edit
 HOOKS_U = {"H:a": [L("a")], "H:a/:x": [L("a/"), W("x")], "H:h": [L("h")], "H:a/b": [L("a/b")], "H:a/": [L("a/")]}
+BFS_HOOKS = list(HOOKS_U)
+HOOKS_U["H:g"] = [L("g")]
 PREFIXES = ["/a/b*", "/a*", "/a/*", "/h*"]
 
 
 def ops_universe():
     ops = []
-    for r in RULES:
+    for r in BFS_RULES:
         ops.append(("add", r, GET, None, False))
         ops.append(("remove", r))
     for r in ("a/b", "a/:x", "a"):
@@ -94,7 +101,7 @@ def ops_universe():
         ops.append(("remove_name", n))
     for p in PREFIXES:
         ops.append(("remove_prefix", p))
-    for h in HOOKS_U:
+    for h in BFS_HOOKS:
         ops.append(("add_hook", h))
         ops.append(("remove_hook", h))
     return ops
@@ -229,6 +236,15 @@ def apply_op(router, model, op, step):
         router.remove_hook(hook_text(h))
         model.hooks.pop(h, None)
         return "remove-hook"
+    if kind == "fault":
+        # not an edit: a lookup that dies from an exception (the int conversion refuses a numeral of 4301 digits)
+        _, r = op
+        p = "".join(x.text if isinstance(x, L) else "9" * 4301 for x in RULES[r])
+        try:
+            router.resolve("/" + p, ANYM)
+        except ValueError:
+            return "lookup-raised"
+        return "lookup-did-not-raise"
     raise ValueError(op)
 
 
@@ -245,6 +261,8 @@ def replay(history, traffic=True):
         if n is None:
             return None
         notes.append(n)
+        if op[0] == "fault":
+            traffic = False          # no successful lookup between the aborted one and the judged one
         if traffic:
             for p in TRAFFIC:
                 observe(router, p, ANYM)
@@ -367,7 +385,7 @@ def make_query(history, N):
 
     wrong = [n for n in notes if "WRONGLY" in n]
 
-    typed = "f/#n" in model.routes        # an int-filtered rule is in force: the cost of one more character is x8 there
+    typed = any("#" in k for k in model.routes)        # an int-filtered rule is in force: the cost of one more character is x8 there
 
     def q(path: str):
         assume(len(path) <= (N - 1 if typed else N))
@@ -490,6 +508,13 @@ def enumerate_states(depth, walks, walk_len, seed, limit):
     return (first + picked)[:max(limit, len(first))], same[0], len(cand)
 
 
+FAULT_HISTS = [
+    [A("g/n/#n"), A("g/:s/:n"), ("add_hook", "H:g"), ("fault", "g/n/#n"), ("remove_hook", "H:g"), ("remove_prefix", "/g/*")],
+    [A("g/n/#n"), A("g/:s/:n"), ("fault", "g/n/#n")],
+    [A("g/n/#n"), A("g/:s/:n"), A("a/b"), A("a/:x"), ("fault", "g/n/#n"), ("remove", "g/:s/:n")],
+    [A("f/#n"), A(":y"), A("a/b"), ("fault", "f/#n"), ("remove", ":y")],
+]
+
 _cache = {}
 STATS = {}
 
@@ -509,6 +534,12 @@ def queries(tier):
     N = 5
     hists, n_same, n_cand = _cache[key]
     STATS.update(states_structurally_equal_to_fresh=n_same, states_differing=n_cand, states_selected=len(hists))
+    for i, h in enumerate(FAULT_HISTS):
+        fn, notes = make_query(h, N)
+        assert "lookup-raised" in notes, notes
+        out.append(Q("fault/%d" % i, fn, "history %r (a lookup that raises ValueError inside the int conversion, no successful lookup "
+                     "after it); every path with <= %d code points (%d code points < 128 while an int-filtered rule is registered)"
+                     % (notes, N, N - 1), timeout=150 if not T else 250, family="fault", config=[list(map(str, op)) for op in h]))
     for h in hists:
         fn, notes = make_query(h, N)
         out.append(Q("state/%s" % _hid(h), fn, "history of %d edits (last: %s); every path with <= %d code points" % (
